@@ -200,5 +200,22 @@ def g_xyz2llh(tier, seed):
     return out
 
 
+def _seq(what, call, specs, temporaries, pre=None):
+    def g(tier, seed):
+        from checks.c04 import seq_group
+        return seq_group(PID, 'O4', '%s%s' % (what, ' (temporary ellipsoid objects)' if temporaries else ''), call, specs, 'oracles.seq:convert_sequence',
+                         '1/10000000000', tier, temporaries, mods=lambda: _mods()[:2], dom=DOM, ell_box=((A_LO, A_HI), (F_LO, F_HI)),
+                         loop_bound=2, timeout_s=15, extra_args={'what': what}, pre=pre)
+    return g
+
+
 def groups(tier):
-    return [('ellipsoid', g_ellipsoid), ('llh2xyz', g_llh2xyz), ('typecheck', g_typecheck), ('xyz2llh', g_xyz2llh)]
+    gs = [('ellipsoid', g_ellipsoid), ('llh2xyz', g_llh2xyz), ('typecheck', g_typecheck), ('xyz2llh', g_xyz2llh)]
+    for t in (False, True):
+        sfx = '_temporaries' if t else ''
+        gs.append(('sequence_llh2xyz' + sfx, _seq('llh2xyz', lambda cv, v, e: cv.llh2xyz(v[0], v[1], v[2], e),
+                                                  (('lat', -90, 90), ('lon', -360, 360), ('h', -10000, 40000000)), t)))
+        gs.append(('sequence_xyz2llh' + sfx, _seq('xyz2llh', lambda cv, v, e: cv.xyz2llh(v[0], v[1], v[2], e),
+                                                  (('x', -5 * 10 ** 7, 5 * 10 ** 7), ('y', -5 * 10 ** 7, 5 * 10 ** 7), ('z', -5 * 10 ** 7, 5 * 10 ** 7)), t,
+                                                  pre=lambda v: core.CTX.assume(v[0] * v[0] + v[1] * v[1] > 1))))
+    return gs
